@@ -916,6 +916,9 @@ func (ev *EvalCtx) modifiesObjects(cls []*Clause) (map[string][]string, error) {
 	c := ev.c
 	out := map[string][]string{}
 	for _, cl := range cls {
+		if strings.TrimSpace(cl.Text) == "nothing" {
+			continue
+		}
 		for _, e := range cl.Exprs {
 			// ghost variable
 			if e.Op == "ident" {
